@@ -200,8 +200,16 @@ def odd_conditionals(draw, backend):
         forms += [f"(j.{vecs[0]}() if {test} else j.{vecs[-1]}()).Count()", f"(j.{vecs[0]}() if {test} else j.{vecs[0]}())"]
     if links:
         forms.append(f"(j if {test} else j.{links[0]}()).{nums[0]}()")
-    body = draw(st.sampled_from(forms))
-    text = f"Select(SelectMany({dataset_text(sch)}, lambda e: e.{col.accessor}({col.banks[0]!r})), lambda j: {body})"
+    # ... and other values a C++ number cannot hold, where a column or an argument is expected: a string constant as a column, the event itself
+    # as an argument of a supplied function
+    forms += ["'ttbar'", f"{{'sample': 'ttbar', 'v': j.{nums[0]}()}}", f"('a', j.{nums[0]}())", f"('x' if {test} else 'y', 1)"]
+    oddf = {"metadata_type": "add_cpp_function", "name": "oddf", "include_files": [], "arguments": ["a"], "code": ["double result = 1;"], "return_type": "double"}
+    body = draw(st.sampled_from(forms + ["EVENT-ARG"]))
+    ds = dataset_text(sch)
+    if body == "EVENT-ARG":
+        text = f"Select(MetaData({ds}, {oddf!r}), lambda e: oddf(e) + e.{col.accessor}({col.banks[0]!r}).Count())"
+    else:
+        text = f"Select(SelectMany({ds}, lambda e: e.{col.accessor}({col.banks[0]!r})), lambda j: {body})"
     evs = draw(events_strategy(sch, [(col.accessor, col.banks[0])], n_min=1, n_max=1))
     return text, evs
 
@@ -238,7 +246,7 @@ def worker(payload):
             res = "accepted-and-compiles"
         except Discard:
             res = "refused"
-        stats.case("odd:" + text[-200:], True, [f"backend={backend}", "conditional-with-non-numeric-arms", "outcome=" + res], {"backend": backend, "query": text[-160:], "outcome": res})
+        stats.case("odd:" + text[-200:], True, [f"backend={backend}", "odd-value-where-a-number-is-expected", "outcome=" + res], {"backend": backend, "query": text[-160:], "outcome": res})
 
     hyp_search(odd_body, odd_conditionals(backend), max_examples=max(2, n // 8), seed=derive_seed(seed, "odd"), stats=stats, deadline=deadline, shrink=False, max_rounds=1)
     hyp_search(young_body, young_process_cases(backend), max_examples=max(1, n // 20), seed=derive_seed(seed, "young"), stats=stats, deadline=deadline, shrink=False, max_rounds=1)
